@@ -56,6 +56,7 @@ type smcWorld struct {
 	dialAt   time.Duration
 	conn     diam.Conn
 	enters   []int // markers seen by the application handler
+	enterLocal []string // local address of the connection each of them arrived on
 	metaOK   []bool
 
 	seenWrites int
@@ -97,9 +98,14 @@ func newSmcWorld(e *Env, wd bool) *smcWorld {
 			}
 		}
 		_, ok := smpeer.FromContext(c.Context())
+		local := ""
+		if la := c.LocalAddr(); la != nil {
+			local = la.String()
+		}
 		w.mu.Lock()
 		w.enters = append(w.enters, seq)
 		w.metaOK = append(w.metaOK, ok)
+		w.enterLocal = append(w.enterLocal, local)
 		w.mu.Unlock()
 	})
 	w.R = t.Range(0, 4)
@@ -1330,6 +1336,119 @@ func c10Client(e *Env) {
 		e.Probe("app-behind-cea-dispatched")
 	}
 	smcAfter(w, s)
+}
+
+// c10ClientTwo: one Client (and state machine) used for two connections. The first
+// connection completes its handshake and stays open; the second one is dialled and its
+// peer sends application messages before (or instead of) answering the CER, while CEAs
+// may arrive on the FIRST connection. Nothing that happens on connection 1 makes
+// connection 2 "handshaken": no application handler may run for connection 2 until a
+// success CEA has arrived on connection 2 itself.
+func c10ClientTwo(e *Env) {
+	t := e.T
+	e.TrustWait = true
+	w := newSmcWorld(e, false)
+	s := hsScript{answerCER: 1, ceaKind: []string{"success", "success-vs"}[t.Draw(2)], delayClass: "quick", delay: time.Duration(t.Draw(3)) * w.I / 4}
+	e.NonTrivial()
+	if !smcHandshake(w, s) {
+		w.teardown()
+		return
+	}
+	var cer1 RefMsg
+	for _, o := range w.obs {
+		if o.msg.Cmd == cmdCE {
+			cer1 = o.msg
+		}
+	}
+	w2 := w.redial()
+	local2 := w2.sc.LocalAddr().String()
+	w2.dial()
+	e.Quiesce()
+	var cer2 *RefMsg
+	for _, o := range w2.collect() {
+		if o.msg.Cmd == cmdCE && o.msg.Flags&0x80 != 0 {
+			m := o.msg
+			cer2 = &m
+		}
+	}
+	if cer2 == nil {
+		if !e.Failed() {
+			e.Fail("C12/no-cer-on-second-dial", "the second dial of the same Client wrote no CER")
+		}
+		w2.teardown()
+		w.teardown()
+		return
+	}
+	e.Act("second-dial", "")
+	entersOn2 := func() int {
+		w.mu.Lock()
+		defer w.mu.Unlock()
+		n := 0
+		for _, l := range w.enterLocal {
+			if l == local2 {
+				n++
+			}
+		}
+		return n
+	}
+	seq := 300
+	ceaOn1 := false
+	for i, n := 0, 1+t.Draw(4); i < n && !e.Failed(); i++ {
+		switch t.Pick(3, 3, 1) {
+		case 0:
+			// a duplicate / late CEA on the first connection
+			kind := []string{"success", "success-vs", "dup-success"}[t.Draw(3)]
+			w.sc.Deliver(serverCEA(cer1, kind).Bytes())
+			ceaOn1 = true
+			e.Act("cea-on-first-connection", "%s", kind)
+			e.Probe("cea-on-other-connection-during-dial")
+		case 1:
+			// an application message on the second connection, which has seen no CEA
+			w2.sc.Deliver(appAnswer(seq).Bytes())
+			seq++
+			e.Act("app-on-second-connection", "")
+		default:
+			// application traffic on the first connection goes on meanwhile
+			w.mu.Lock()
+			before := len(w.enters)
+			w.mu.Unlock()
+			w.sc.Deliver(appAnswer(seq).Bytes())
+			seq++
+			e.Quiesce()
+			w.mu.Lock()
+			after := len(w.enters)
+			w.mu.Unlock()
+			if after != before+1 {
+				e.Fail("C10/established-connection-not-served", "connection 1 had completed its handshake; an application answer arriving on it while the Client dials again ran %d handlers", after-before)
+			}
+			e.Act("app-on-first-connection", "")
+		}
+		e.Quiesce()
+		if n := entersOn2(); n > 0 {
+			e.Fail("C10/handler-ran-before-handshake/second-connection", "an application handler ran for a message on the Client's second connection, on which no CEA has arrived (CEA seen on the first connection meanwhile: %v)", ceaOn1)
+		}
+	}
+	if !e.Failed() && !ceaOn1 && t.Chance(1, 2) {
+		// now the peer of connection 2 answers: from here on its messages are dispatched
+		w2.sc.Deliver(append(serverCEA(*cer2, "success").Bytes(), appAnswer(seq).Bytes()...))
+		e.Quiesce()
+		if entersOn2() != 1 {
+			e.Fail("C10/handler-not-invoked/second-connection", "a success CEA and an application answer arrived on the second connection; the application handler ran %d time(s) for it", entersOn2())
+		}
+		e.Probe("second-connection-handshaken")
+	}
+	// let the second dial end (success, or time out), then hang up both
+	for i := 0; i < w.R+4; i++ {
+		w2.mu.Lock()
+		done := w2.dialDone
+		w2.mu.Unlock()
+		if done || e.Failed() {
+			break
+		}
+		w2.advance(w.I)
+	}
+	w2.teardown()
+	w.teardown()
 }
 
 // ---------------------------------------------------------------- C12 sweep
